@@ -3,9 +3,9 @@
    stream layout goes (experimental/token/stream.go, raw.go, token.go), and of the verdict loop of
    parser.Parse (experimental/parser/parse.go) over the level order of experimental/report.
 
-   The model mirrors the code AS IT IS in the pinned tree.  Two repairs that were proposed for it
-   are switches of the [variant] record, so that the same definitions give the code as written
-   ([as_is]) and the code with the repairs ([repaired]).
+   The two repairs made to the lexer are switches of the [variant] record, so that the same
+   definitions give the code of the working tree ([repaired]) and the code as it was in the pinned
+   tree before the repairs ([as_is], about which the refutations are kept).
 
    Bytes are [N], runes are [Z] (the code uses -1 for: no rune here), offsets and lengths are [nat].
    Definitions only; proofs are in Proofs/XLexer.v. *)
@@ -116,7 +116,7 @@ Record cfg := {
   c_str_affix : list N -> bool;   (* IsAffix != nil && IsAffix(affix, token.String, false) *)
   c_maxsize : N }.          (* lexer.MaxFileSize *)
 
-(* The two proposed repairs of the lexer. *)
+(* The two repairs of the lexer. *)
 Record variant := {
   fix_flush : bool;    (* loop(): flush badBytes after the main loop *)
   fix_esc : bool }.    (* errtoken.InvalidEscape.Diagnose: return after the short-escape snippet *)
